@@ -590,16 +590,91 @@ func (a *A) ruleLateUpdateIdentity() {
 	} {
 		h := a.Method("window", w.typ, w.handler)
 		u := a.Method("window", w.typ, w.update)
-		calls := callsTo(h, u)
-		if len(calls) == 0 {
-			a.Bad(fname(h)+"#late-update-slot", h.Pos(), "%s does not call %s", fname(h), w.update)
+		// where the handler decides which slot the re-delivery carries: the slot argument of its calls of the
+		// update function, or - when the update is written out in the handler - the values it stamps rows with
+		type stamp struct {
+			at ssa.Instruction
+			v  ssa.Value
+		}
+		var stamps []stamp
+		for _, c := range callsTo(h, u) {
+			stamps = append(stamps, stamp{c, c.(*ssa.Call).Call.Args[1]})
+		}
+		if len(stamps) == 0 {
+			allInstrs(h, func(in ssa.Instruction) {
+				st, ok := in.(*ssa.Store)
+				if !ok {
+					return
+				}
+				fa, ok := st.Addr.(*ssa.FieldAddr)
+				if ok && isNamedType(fa.X.Type(), typesPkg, "Row") && fieldVarOf(fa).Name() == "Slot" {
+					stamps = append(stamps, stamp{st, st.Val})
+				}
+			})
+		}
+		if len(stamps) == 0 {
+			a.Bad(fname(h)+"#late-update-slot", h.Pos(), "%s neither calls %s nor stamps the re-delivered rows itself", fname(h), w.update)
 			continue
 		}
-		for _, c := range calls {
-			argV := c.(*ssa.Call).Call.Args[1]
+		containsHolds := func(gs []Guard, slotTerm string) bool {
+			for _, g := range gs {
+				if call, ok := g.Cond.(*ssa.Call); ok && g.Sense {
+					if cal := call.Call.StaticCallee(); cal != nil && cal.Name() == "Contains" && TermOf(call.Call.Args[0], nil).String() == slotTerm {
+						return true
+					}
+				}
+			}
+			return false
+		}
+		// selectedEntries: every element of the local slice sl was appended as a fired-window entry whose slot
+		// Contains held at the append (`if info.slot.Contains(ts) { infos = append(infos, info) }`)
+		selectedEntries := func(sl ssa.Value) bool {
+			n := 0
+			seen := map[ssa.Value]bool{}
+			var rec func(v ssa.Value) bool
+			rec = func(v ssa.Value) bool {
+				for _, l := range phiLeaves(v) {
+					if seen[l] {
+						continue
+					}
+					seen[l] = true
+					switch x := l.(type) {
+					case *ssa.Const:
+						if x.Value != nil {
+							return false
+						}
+					case *ssa.MakeSlice:
+					case *ssa.Call:
+						cc, ok := isBuiltinCall(x, "append")
+						if !ok {
+							return false
+						}
+						els := appendedElems(cc)
+						if len(els) != 1 {
+							return false
+						}
+						et := TermOf(els[0], nil).String()
+						if !strings.Contains(et, "triggeredWindows") || !containsHolds(guardsOf(x.Block()), et+".slot") {
+							return false
+						}
+						n++
+						if !rec(cc.Args[0]) {
+							return false
+						}
+					default:
+						return false
+					}
+				}
+				return true
+			}
+			return rec(sl) && n > 0
+		}
+		for _, sp := range stamps {
+			c, argV := sp.at, sp.v
 			arg := TermOf(argV, nil)
-			// the slot may be picked in a search loop and carried in a variable (`target = info.slot; break`):
-			// every non-nil way the value came about must be the slot of an entry whose Contains held
+			// the slot may be picked in a search loop and carried in a variable (`target = info.slot; break`), or the
+			// matching entries may be collected first and processed afterwards: every non-nil way the value came
+			// about must be the slot of an entry whose Contains held
 			okArg, okGuard := true, true
 			nLeaves := 0
 			for _, lf := range phiLeafEdges(argV) {
@@ -607,6 +682,16 @@ func (a *A) ruleLateUpdateIdentity() {
 					continue // "not found": the handler returns before the call or the update finds nothing
 				}
 				nLeaves++
+				// element of a slice of selected entries: (*sl[i]).slot
+				if ld, ok := lf.v.(*ssa.UnOp); ok && ld.Op == token.MUL {
+					if fa, ok := ld.X.(*ssa.FieldAddr); ok && fieldVarOf(fa).Name() == "slot" {
+						if el, ok := fa.X.(*ssa.UnOp); ok && el.Op == token.MUL {
+							if ia, ok := el.X.(*ssa.IndexAddr); ok && selectedEntries(ia.X) {
+								continue
+							}
+						}
+					}
+				}
 				lt := TermOf(lf.v, nil)
 				if !(lt.Kind == "field" && lt.Field.Name() == "slot" && strings.Contains(lt.String(), "triggeredWindows")) {
 					okArg = false
@@ -623,15 +708,7 @@ func (a *A) ruleLateUpdateIdentity() {
 						gs = append(gs, guardsOf(lf.from)...)
 					}
 				}
-				g1 := false
-				for _, g := range gs {
-					if call, ok := g.Cond.(*ssa.Call); ok && g.Sense {
-						if cal := call.Call.StaticCallee(); cal != nil && cal.Name() == "Contains" && TermOf(call.Call.Args[0], nil).String() == lt.String() {
-							g1 = true
-						}
-					}
-				}
-				if !g1 {
+				if !containsHolds(gs, lt.String()) {
 					okGuard = false
 				}
 			}
@@ -639,7 +716,7 @@ func (a *A) ruleLateUpdateIdentity() {
 				okArg = false
 			}
 			a.Check(okArg && okGuard, fname(h)+"#late-update-slot", c.Pos(), "the late update is computed for the slot of the fired-window entry that Contains the event",
-				"the late update is called with "+arg.String()+" (not the slot of the fired-window entry whose Contains selected the event): the re-delivery would carry another window_id")
+				"the late update is made for "+arg.String()+" (not the slot of a fired-window entry whose Contains selected the event): the re-delivery would carry another window_id")
 		}
 		n := 0
 		allInstrs(u, func(in ssa.Instruction) {
